@@ -299,6 +299,8 @@ class Analysis:
             return self.raise_stmt_types(fn, node)
         if k == "reraise":
             return (EXC,)
+        if k == "subscript" and not isinstance(node.ast.slice, ast.Slice) and self._own_local_sequence(fn, node):
+            return ()
         out: List[str] = []
         for t in self.targets(fn, node):
             if t.kind == "ext":
@@ -327,6 +329,8 @@ class Analysis:
             bt = ft.type_of(node.ast.value, ft.env_in.get(node) or {})
             if isinstance(node.ast.slice, ast.Slice):
                 pass
+            elif self._own_local_sequence(fn, node):
+                pass        # a constant index into a list / tuple the function itself built (its own bookkeeping, not input)
             elif bt == ANY:
                 out.extend(("KeyError", "IndexError", "TypeError"))
             else:
@@ -340,6 +344,16 @@ class Analysis:
         if k == "delete":
             out.append("KeyError")
         return tuple(dict.fromkeys(out))
+
+    def _own_local_sequence(self, fn: FunctionInfo, node: Node) -> bool:
+        """`acc[0]` where acc is a local bound only to list / tuple displays or comprehensions in this function and the index is
+        a small constant: the length is the function's own doing, an IndexError is not something its caller's input causes"""
+        sub = node.ast
+        if not (isinstance(sub.value, ast.Name) and isinstance(sub.slice, ast.Constant) and isinstance(sub.slice.value, int) and 0 <= sub.slice.value < 8):
+            return False
+        from .defuse import value_sources
+        srcs = value_sources(fn, sub.value, node)
+        return bool(srcs) and all(k == "expr" and isinstance(p, (ast.List, ast.Tuple, ast.ListComp)) for k, p in srcs)
 
     def raise_stmt_types(self, fn: FunctionInfo, node: Node) -> Tuple[str, ...]:
         st = node.ast
